@@ -11,6 +11,7 @@ import (
 	"testing"
 	"time"
 
+	"github.com/zenon-network/go-zenon/chain/genesis"
 	"github.com/zenon-network/go-zenon/chain/nom"
 	"github.com/zenon-network/go-zenon/common/types"
 	"github.com/zenon-network/go-zenon/vm/embedded/definition"
@@ -79,6 +80,41 @@ func TestC01(t *testing.T) {
 			for len(spec.Users) < 5 {
 				spec.Users = append(spec.Users, sim.UserSpec{Znn: 9000, Qsr: 90000})
 			}
+		}
+		// a genesis token declared with more supply than its maximum: the genesis validator must refuse it (a
+		// refused configuration starts no network); if it accepts, the bound is broken from the first momentum on
+		if len(spec.Tokens) > 0 && c.Weighted("c01.genesisOverMax", 6, 1) == 1 {
+			i := c.Pick("c01.genesisOverMax.token", len(spec.Tokens))
+			total := int64(0)
+			for u := range spec.Users {
+				total += spec.Users[u].Extra[i]
+			}
+			spec.Tokens[i].Max = big.NewInt(total - int64(c.Int("c01.genesisOverMax.by", 1, 500)))
+			if err := genesis.CheckGenesis(spec.Config()); err != nil {
+				c.Class("genesis-over-max-refused")
+				c.Note("genesis with total supply above max supply refused: %v", err)
+				return
+			}
+			c.Class("genesis-over-max-accepted")
+		}
+		// the identity starts at the genesis momentum: a configuration whose balances add up to less or more than a
+		// declared supply must be refused
+		if c.Weighted("c01.genesisUnbalanced", 8, 1) == 1 {
+			cfg := spec.Config()
+			tk := cfg.TokenConfig.Tokens[c.Pick("c01.genesisUnbalanced.token", len(cfg.TokenConfig.Tokens))]
+			d := big.NewInt(int64(c.Int("c01.genesisUnbalanced.by", 1, 1000)))
+			if c.Bool("c01.genesisUnbalanced.less") && tk.TotalSupply.Cmp(d) > 0 {
+				d.Neg(d)
+			}
+			tk.TotalSupply = new(big.Int).Add(tk.TotalSupply, d)
+			if tk.MaxSupply != nil && tk.MaxSupply.Cmp(tk.TotalSupply) < 0 {
+				tk.MaxSupply = new(big.Int).Set(tk.TotalSupply)
+			}
+			if err := genesis.CheckGenesis(cfg); err == nil {
+				c.Failf("C01/genesis-unbalanced-accepted", "the genesis validator accepts a configuration declaring a supply of %v for %s while the balances add up to %v",
+					tk.TotalSupply, tk.TokenSymbol, new(big.Int).Sub(tk.TotalSupply, d))
+			}
+			c.Class("genesis-unbalanced-refused")
 		}
 		h := sim.NewHist(c, spec, opts)
 		h.Intents = sim.DefaultIntents()
@@ -172,16 +208,48 @@ func TestC01(t *testing.T) {
 			}
 			inv()
 		}
+		// a transfer published through the JSON-RPC interface with its amount negated (the signature covers the
+		// magnitude only): whatever the node decides, the identity must hold afterwards
+		rpcSignedAmount := func() {
+			from := h.Users[c.Pick("neg.from", len(h.Users))]
+			kp := h.W.Keys.ByAddr[from]
+			amt := big.NewInt(int64(c.Int("neg.amt", 1, 100000)))
+			var tx *nom.AccountBlockTransaction
+			var err error
+			func() {
+				defer func() {
+					if r := recover(); r != nil {
+						err = fmt.Errorf("%v", r)
+					}
+				}()
+				tx, err = h.A.Sup.GenerateFromTemplate(&nom.AccountBlock{BlockType: nom.BlockTypeUserSend, Address: from, ToAddress: h.Users[c.Pick("neg.to", len(h.Users))],
+					TokenStandard: []types.ZenonTokenStandard{types.ZnnTokenStandard, types.QsrTokenStandard}[c.Pick("neg.zts", 2)], Amount: amt}, kp.Signer)
+			}()
+			if err != nil || tx == nil {
+				return
+			}
+			neg := tx.Block.Copy()
+			neg.Amount = new(big.Int).Neg(neg.Amount)
+			lb, err := sim.ViaPublishJSON(h.A, neg)
+			if err != nil {
+				return
+			}
+			if ntx, err := h.A.Sup.ApplyBlock(lb); err == nil {
+				h.A.CreateAccountBlock(ntx)
+				c.Class("negative-amount-accepted-over-rpc")
+			}
+		}
 		c.Repeat(map[string]func(){
-			"transfer": h.ActTransfer,
-			"receive":  h.ActReceive,
-			"callABI":  h.ActCallABI,
-			"callABI2": h.ActCallABI,
-			"intent":   h.ActIntent,
-			"intent2":  h.ActIntent,
-			"intent3":  h.ActIntent,
-			"produce":  h.ActProduce,
-			"produce2": h.ActProduce,
+			"rpcSignedAmount": rpcSignedAmount,
+			"transfer":        h.ActTransfer,
+			"receive":         h.ActReceive,
+			"callABI":         h.ActCallABI,
+			"callABI2":        h.ActCallABI,
+			"intent":          h.ActIntent,
+			"intent2":         h.ActIntent,
+			"intent3":         h.ActIntent,
+			"produce":         h.ActProduce,
+			"produce2":        h.ActProduce,
 		}, inv)
 		// drain: a few more momentums so that queued calls are received
 		for i := 0; i < 3 && !h.Dead; i++ {
